@@ -171,6 +171,22 @@ func strParts(t *an.Term) ([]strPart, bool) {
 	}
 	if c, _ := t.CallOf(); c != nil && t.Op == "call" {
 		switch c.Aux {
+		case "path/filepath.Join":
+			// Join(a, b, …) composes a + "/" + b + …
+			if len(c.Args) == 1 && c.Args[0].Op == "varargs" && len(c.Args[0].Args) > 0 {
+				var out []strPart
+				for i, e := range c.Args[0].Args {
+					ps, ok := strParts(e)
+					if !ok {
+						return nil, false
+					}
+					if i > 0 {
+						out = append(out, strPart{Lit: "/"})
+					}
+					out = append(out, ps...)
+				}
+				return mergeLits(out), true
+			}
 		case "fmt.Sprintf":
 			return fmtParts(c.Args[0], c.Args[1])
 		case "strconv.Itoa":
